@@ -387,6 +387,39 @@ def emit_pulse(name, fdef, mode, report):
     return f"/-- PulseAtoms.{name}({', '.join(params)})[k] -/\n{nc}def {name} ({sig} : {ty}) (k : Nat) : {ty} :=\n" + "\n".join(lines)
 
 
+def emit_arb_func(fdef, report):
+    """PulseAtoms.arb_func(func, kwargs, SR, npts): `time = np.linspace(0, X, int(npts), endpoint=False)` and
+    `return func(time, **kwargs)` -- the user function applied to the time axis and the keyword arguments as they are"""
+    params = [a.arg for a in fdef.args.args]
+    if len(params) != 4:
+        raise Unsupported("arb_func: four parameters expected")
+    fpar, kwpar = params[0], params[1]
+    p = P("real")
+    body = [st for st in fdef.body if not (isinstance(st, ast.Expr) and isinstance(st.value, ast.Constant))]
+    if len(body) != 2 or not isinstance(body[0], ast.Assign) or not isinstance(body[1], ast.Return):
+        raise Unsupported("arb_func: body is not `time = linspace(...); return func(time, **kwargs)`")
+    tgt = body[0].targets[0].id if isinstance(body[0].targets[0], ast.Name) else None
+    v = body[0].value
+    if not (tgt and isinstance(v, ast.Call) and isinstance(v.func, ast.Attribute) and v.func.attr == "linspace" and len(v.args) >= 3):
+        raise Unsupported("arb_func: time axis is not a linspace")
+    kw = {k.arg: k.value for k in v.keywords}
+    a0, a1, a2 = v.args[:3]
+    if isinstance(kw.get("endpoint"), ast.Constant) and kw["endpoint"].value is False:
+        step = f"(({p.e(a1)} - {p.e(a0)}) / {p.e(a2)})"
+    else:
+        step = f"(({p.e(a1)} - {p.e(a0)}) / ({p.e(a2)} - {p.num(1)}))"
+    r = body[1].value
+    ok = (isinstance(r, ast.Call) and isinstance(r.func, ast.Name) and r.func.id == fpar and len(r.args) == 1
+          and isinstance(r.args[0], ast.Name) and r.args[0].id == tgt and len(r.keywords) == 1 and r.keywords[0].arg is None
+          and isinstance(r.keywords[0].value, ast.Name) and r.keywords[0].value.id == kwpar)
+    if not ok:
+        raise Unsupported("arb_func: the return value is not func(time, **kwargs)")
+    return (f"/-- PulseAtoms.arb_func({', '.join(params)})[k]: the user function, given the time axis and the keyword arguments -/\n"
+            f"noncomputable def arb_func {{κ : Type}} ({fpar} : (Nat → ℝ) → κ → Nat → ℝ) ({kwpar} : κ) ({params[2]} {params[3]} : ℝ) (k : Nat) : ℝ :=\n"
+            f"  let {tgt} := fun (k : Nat) => {p.e(a0)} + (k : ℝ) * {step}\n"
+            f"  {fpar} {tgt} {kwpar} k")
+
+
 PULSES_RAT = ["ramp", "waituntil"]
 PULSES_REAL = ["ramp", "sine", "gaussian", "gaussian_smooth_cutoff", "waituntil"]
 
@@ -746,6 +779,7 @@ def generate():
     r = {}
     for nm in PULSES_REAL:
         r["pulse_" + nm] = section(None, lambda nm=nm: [pulse(nm, "real")], "real pulse " + nm)
+    r["pulse_arb_func"] = section(None, lambda: [emit_arb_func(find_func(bbt, "arb_func", "PulseAtoms"), report)], "real pulse arb_func")
     r["rescaler"] = section(None, lambda: [rescaler("real", report).replace("def rescaler", "noncomputable def rescaler")], "real rescaler")
     r["rc"] = section(None, lambda: rc_filter(report), "rc filter")
     # ---- KFloat.lean
